@@ -163,25 +163,29 @@ func checkC12(c *km.Ctx) {
 	prAuth := km.Prim{Name: "client authenticated", Direct: func(f km.Fact) bool {
 		return f.Op == token.ILLEGAL && f.Pol && f.X == ssa.Value(flag)
 	}}
-	prSub := km.Prim{Name: "client == code.sub", Direct: func(f km.Fact) bool {
+	prSub := km.Prim{Name: "client == code.sub", Rel: func(f km.Fact, resolve func(ssa.Value) ssa.Value) bool {
 		if f.Op != token.EQL {
 			return false
 		}
-		return (fieldLoadOf(f.X, typCode, "Subject") && isClientID(f.Y)) || (fieldLoadOf(f.Y, typCode, "Subject") && isClientID(f.X))
+		return (fieldLoadOf(resolve(f.X), typCode, "Subject") && isClientID(resolve(f.Y))) || (fieldLoadOf(resolve(f.Y), typCode, "Subject") && isClientID(resolve(f.X)))
 	}}
 	prExp := primNotExpiredEpoch(typCode)
-	prRedir := km.Prim{Name: "code.redirect_uri == submitted", Direct: func(f km.Fact) bool {
+	prRedir := km.Prim{Name: "code.redirect_uri == submitted", Rel: func(f km.Fact, resolve func(ssa.Value) ssa.Value) bool {
 		if f.Op != token.EQL {
 			return false
 		}
-		return (fieldLoadOf(f.X, typCode, "RedirectURI") && isFormGet(f.Y, "redirect_uri")) || (fieldLoadOf(f.Y, typCode, "RedirectURI") && isFormGet(f.X, "redirect_uri"))
+		return (fieldLoadOf(resolve(f.X), typCode, "RedirectURI") && isFormGet(resolve(f.Y), "redirect_uri")) || (fieldLoadOf(resolve(f.Y), typCode, "RedirectURI") && isFormGet(resolve(f.X), "redirect_uri"))
 	}}
-	prType := km.Prim{Name: "code.type == token_endpoint", Direct: func(f km.Fact) bool {
+	prType := km.Prim{Name: "code.type == token_endpoint", Rel: func(f km.Fact, resolve func(ssa.Value) ssa.Value) bool {
 		if f.Op != token.EQL {
 			return false
 		}
-		cs, ok := km.ConstString(f.Y)
-		return ok && cs == "token_endpoint" && fieldLoadOf(f.X, typCode, "Type")
+		for _, pair := range [][2]ssa.Value{{f.X, f.Y}, {f.Y, f.X}} {
+			if cs, ok := km.ConstString(resolve(pair[1])); ok && cs == "token_endpoint" && fieldLoadOf(resolve(pair[0]), typCode, "Type") {
+				return true
+			}
+		}
+		return false
 	}}
 	nMint := 0
 	for _, ci := range km.CallsIn(th) {
